@@ -1,4 +1,5 @@
 import PoorModel.Session
+import PoorProofs.Lemmas.Base64
 /-
 C13 - session cookies restore the stored data and reject foreign ones.
 -/
@@ -34,6 +35,29 @@ theorem C13_roundtrip {Data : Type} (c : Codec Data) (hl : Laws c) (key : Bytes)
   simp only [Bool.false_eq_true, if_false]
   unfold writeValue
   simp only [hl.b64, hl.zip, hidden_involutive, hl.json, hd, if_true]
+
+/-- the codec with base64 made concrete (the C loops of `binascii`): only JSON and the compression module
+    remain parameters -/
+def withBase64 {Data : Type} (c : Codec Data) : Codec Data :=
+  { c with b64enc := Poor.Base64.encode, b64dec := Poor.Base64.decode }
+
+/-- **round trip with base64 proved, not assumed** (`Poor.Base64.decode_encode`) -/
+theorem C13_roundtrip_b64 {Data : Type} (c : Codec Data)
+    (hjson : ∀ d, c.loads (c.dumps d) = some d) (hzip : ∀ x, c.decompress (c.compress x) = some x)
+    (key : Bytes) (d : Data) (hd : c.isDict d = true)
+    (hne : (writeValue (withBase64 c) key d).isEmpty = false) :
+    loadValue (withBase64 c) key (writeValue (withBase64 c) key d) = .ok (some d) :=
+  C13_roundtrip (withBase64 c) ⟨hjson, hzip, Poor.Base64.decode_encode⟩ key d hd hne
+
+/-- the cookie value is empty only for an empty compressed payload (which no compression module produces) -/
+theorem C13_value_nonempty {Data : Type} (c : Codec Data) (key : Bytes) (d : Data)
+    (h : c.compress (hidden key (c.dumps d)) ≠ []) : (writeValue (withBase64 c) key d).isEmpty = false := by
+  show (Poor.Base64.encode (c.compress (hidden key (c.dumps d)))).isEmpty = false
+  generalize c.compress (hidden key (c.dumps d)) = x at h
+  match x, h with
+  | [_], _ => rfl
+  | [_, _], _ => rfl
+  | _ :: _ :: _ :: _, _ => rfl
 
 /-- **errors.** Whatever string is loaded - foreign, truncated, arbitrary - the outcome is the
     restored dictionary, "no data", or the session error; no other failure exists -/
